@@ -390,6 +390,30 @@ def hard_terms(log):
     return out
 
 
+def inst_hard_terms(log):
+    """per solver instance: the terms assumed before its first Sat()"""
+    out = []
+    cur = None
+    seen_sat = False
+    for ev in log:
+        if ev[0] == "new":
+            if cur is not None:
+                out.append(cur)
+            cur = []
+            seen_sat = False
+        elif ev[0] == "sat":
+            seen_sat = True
+        elif ev[0] == "assume" and not seen_sat and cur is not None:
+            cur.append(ev[1])
+    if cur is not None:
+        out.append(cur)
+    return out
+
+
+def insts_literal(res):
+    return clist([clist([term_lit(t) for t in inst]) for inst in inst_hard_terms(res["log"])])
+
+
 # --------------------------------------------------------------------------------------------- generation
 def type_range(w, sg):
     return (-(1 << (w - 1)), (1 << (w - 1)) - 1) if sg else (0, (1 << w) - 1)
